@@ -479,6 +479,14 @@ var c05Hand = []string{
 // order: whatever a run caches must not change what the next run (or a later call of the same run) yields.
 func c05Regex() []string {
 	var out []string
+	// pattern/flags pairs whose concatenations coincide in either order ("x"+"i" = "xi"+"", "i"+"a" = ""+"ia")
+	for _, p := range [][4]string{{"x", "\"i\"", "xi", "null"}, {"a", "\"i\"", "ia", "null"}, {"x", "\"g\"", "gx", "null"}, {"x", "\"g\"", "xg", "\"\""}, {"x", "\"gi\"", "gix", "null"}, {"a", "\"z\"", "za", "null"}, {"a", "\"z\"", "az", "null"}, {"i", "null", "", "\"i\""}} {
+		for _, o := range [][2]int{{0, 2}, {2, 0}} {
+			a, fa, b, fb := p[o[0]], p[o[0]+1], p[o[1]], p[o[1]+1]
+			out = append(out, "\"hi XI xi AIa gx Gx\" | [(try test(\""+a+"\"; "+fa+") catch \"ERR\"), (try test(\""+b+"\"; "+fb+") catch \"ERR\"), (try [match(\""+a+"\"; "+fa+").offset] catch \"ERR\"), (try gsub(\""+b+"\"; \"_\"; "+fb+") catch \"ERR\")]")
+			out = append(out, "\"hi XI xi AIa gx Gx\" | [(try gsub(\""+a+"\"; \"-\") catch \"ERR\"), (try test(\"g"+a+"\") catch \"ERR\"), (try [scan(\""+b+"\")] catch \"ERR\"), (try test(\"g"+b+"\"; "+fb+") catch \"ERR\")]")
+		}
+	}
 	for _, re := range []string{"b", "a.", "(?<x>a)", "^", "[a-c]+"} {
 		for _, fa := range []string{"\"x\"", "\"gx\"", "\"s\"", "\"n\"", "\"ig z\"", "1", "null", "\"g\"", "\"i\""} {
 			for _, fb := range []string{"null", "\"g\"", "\"i\"", "\"\"", "\"x\"", "\"gi\""} {
